@@ -314,3 +314,37 @@ no_window = Contract(
     assumptions=['read_to_consensus_dict recorded with its window arguments (its own unit above)'],
 )
 UNITS.append(no_window)
+
+
+# ------------------------------------------------------------------------------ Fragment.get_consensus: one call per covered position,
+# the better of the two mates (pick_best_base_call) - positions covered by one mate only included
+FFRAG = 'singlecellmultiomics/fragment/fragment.py'
+
+
+def fc_setup(eng):
+    eng.ghost.clear()
+    mk = lambda nm: (named(STR, nm + '_base'), named(INT, nm + '_qual'))
+    r1 = {10: mk('r1_10'), 11: mk('r1_11')}
+    r2 = {11: mk('r2_11'), 12: mk('r2_12')}
+    eng.spec_env['R1C'], eng.spec_env['R2C'] = r1, r2
+    for q in ('singlecellmultiomics.utils.sequtils.get_consensus_dictionaries', 'singlecellmultiomics.fragment.fragment.get_consensus_dictionaries'):
+        eng.loader.call_hooks[q] = lambda e, f, a, k, n: (dict(r1), dict(r2))
+    for q in ('singlecellmultiomics.utils.sequtils.pick_best_base_call', 'singlecellmultiomics.fragment.fragment.pick_best_base_call'):
+        eng.loader.call_hooks[q] = lambda e, f, a, k, n: ('best of', a[0], a[1])
+
+
+fragment_consensus = Contract(
+    PROP, FFRAG + '::Fragment.get_consensus', name='Fragment.get_consensus[both mates, overlapping in one position]',
+    params={'self': ('obj', 'Fragment', {'R1': ('const', 'R1'), 'R2': ('const', 'R2')}, FFRAG), 'only_include_refbase': 'none',
+            'dove_safe': 'bool'},
+    setup=fc_setup,
+    ensures={
+        'every_position_covered_by_either_mate_gets_one_call': 'sorted(list(result.keys())) == [10, 11, 12]',
+        'the_call_is_the_better_of_the_two_mates':
+            'result[10] == ("best of", R1C[10], None) and result[11] == ("best of", R1C[11], R2C[11]) and result[12] == ("best of", None, R2C[12])',
+    },
+    raises={},
+    bounded='mate 1 covers positions 10-11, mate 2 covers 11-12 (symbolic calls)',
+    assumptions=['get_consensus_dictionaries and pick_best_base_call through recording stubs (their own units above)'],
+)
+UNITS.append(fragment_consensus)
